@@ -1,45 +1,42 @@
 (* C01 — batch-shape, device and dim-name coherence in every reachable state.  Property theorems only.
 
    Model: Model/C01_Tree.v (tree skeleton, `coherentb`), Model/C01_Ops.v (`step : tree -> op -> tree * outcome`, the state
-   the code leaves behind for ok AND raising outcomes).  `in_scopeb` is the property's stated exclusion (a batch size
-   changed through a handle to a nested node must still extend the parent's).  `cleanb` is the complement of the recorded
-   defects (findings D101 / D102: hollow nodes — empty TensorDicts, NonTensorData — keep a stale batch size; D103:
-   rename_key_ into a nested key stores without validation; D108: auto_batch_size_(k) with k below the rank of a nested
-   node shrinks children before the parent), written out in Model/C01_Scope.clean0.  No modelled call is left out. *)
+   the code leaves behind for ok AND raising outcomes), in the state of /repo AFTER the repairs fixes/C01/*.diff
+   (D101/D102: the batch-size setter checks first and resizes emptied nested nodes; D103: rename_key_ validates at the
+   destination).  `in_scopeb` is the property's stated exclusion (a batch size changed through a handle to a nested node
+   must still extend the parent's).  `cleanb` (Model/C01_Scope.clean0) no longer excludes any defect; it holds the
+   hypotheses of the proof: values handed to set/update are tensordicts coherent by themselves; when a batch size is
+   assigned (batch_size =, auto_batch_size_) the nodes BELOW carry no dim names; auto_batch_size_(k) is in its growing
+   regime.  Outside these two proof hypotheses the statement is neither proved nor refuted (the oracle covers it). *)
 From Coq Require Import List String Bool Arith.
 Import ListNotations.
 From TD Require Import Model.C01_Tree Model.C01_Ops Model.C01_Scope Proofs.C01_SetP Proofs.C01_AutoP Proofs.C01_MainP.
 Open Scope string_scope.
 Open Scope list_scope.
 
-(* the full statement: false of the faithful model because /repo violates the property (D101, D102, D103) *)
+(* the full statement (stated, not proved in full — see C01_step_partial for the proved domain; no counter-example is
+   known after the repairs) *)
 Definition C01_step_full_statement : Prop :=
   forall t o, Coherent t -> in_scopeb t o = true -> Coherent (fst (step t o)).
 
-Theorem C01_step_refuted : exists t o, Coherent t /\ in_scopeb t o = true /\ ~ Coherent (fst (step t o)).
-Proof. exact step_refuted. Qed.
-Print Assumptions C01_step_refuted.
-
-(* one witness per defect, with the outcome of the call: D101 ok, D102 raised, D103 ok *)
-Theorem C01_refuted_D101 : Coherent w101_t /\ in_scopeb w101_t w101_o = true /\ snd (step w101_t w101_o) = Done
-                           /\ coherentb (fst (step w101_t w101_o)) = false.
-Proof. exact refuted_D101. Qed.
-Print Assumptions C01_refuted_D101.
-Theorem C01_refuted_D102 : Coherent w102_t /\ in_scopeb w102_t w102_o = true /\ snd (step w102_t w102_o) = Raised
-                           /\ coherentb (fst (step w102_t w102_o)) = false.
-Proof. exact refuted_D102. Qed.
-Print Assumptions C01_refuted_D102.
-Theorem C01_refuted_D103 : Coherent w103_t /\ in_scopeb w103_t w103_o = true /\ snd (step w103_t w103_o) = Done
-                           /\ coherentb (fst (step w103_t w103_o)) = false.
-Proof. exact refuted_D103. Qed.
-Print Assumptions C01_refuted_D103.
-
-(* C01_step on the complement of the defects: any tree (any depth, any rank, size-0/1 dims, names, devices), any
-   handle, any argument; ok and raising outcomes alike *)
+(* C01_step on the proved domain: any tree (any depth, any rank, size-0/1 dims, names, devices, hollow nodes), any
+   handle, any argument; ok and raising outcomes alike.  rename_key_ into nested keys, unflatten_keys, values with empty
+   nested tensordicts, NonTensorData entries under a batch-size change are all inside (they were excluded before the repairs). *)
 Theorem C01_step_partial : forall t o,
   Coherent t -> in_scopeb t o = true -> cleanb t o = true -> Coherent (fst (step t o)).
 Proof. exact step_coh. Qed.
 Print Assumptions C01_step_partial.
+
+(* the former refutation witnesses of D101 / D102 / D103, now with the repaired behaviour *)
+Theorem C01_repaired_D101 : step w101_t w101_o = (Node KTd [4] None None [("n", Node KTd [4] None None [])], Done).
+Proof. exact repaired_D101. Qed.
+Print Assumptions C01_repaired_D101.
+Theorem C01_repaired_D102 : step w102_t w102_o = (w102_t, Raised).
+Proof. exact repaired_D102. Qed.
+Print Assumptions C01_repaired_D102.
+Theorem C01_repaired_D103 : step w103_t w103_o = (w103_t, Raised).
+Proof. exact repaired_D103. Qed.
+Print Assumptions C01_repaired_D103.
 
 (* C01_reachable: induction over the op list from any coherent state; every intermediate state is coherent *)
 Theorem C01_reachable_partial : forall ops t, Coherent t -> trace_ok t ops -> forall n, Coherent (run t (firstn n ops)).
@@ -71,21 +68,32 @@ Theorem C01_names_setter : forall t v p d, coh p d t = true -> coh p d (fst (set
 Proof. exact Proofs.C01_NamesP.set_names_coh. Qed.
 Print Assumptions C01_names_setter.
 
+(* a successful batch-size assignment is coherent wherever the context's size is a prefix of the new one: no hypothesis
+   on the tree (hollow nodes, names: anything) *)
+Theorem C01_batch_size_setter_ok : forall t sz new t' p d,
+  coh p d t = true -> set_bs sz t new = (t', true) -> prefixb p new = true -> coh p d t' = true.
+Proof. exact Proofs.C01_BatchP.set_bs_ok_coh. Qed.
+Print Assumptions C01_batch_size_setter_ok.
+
+(* both outcomes, for a node whose descendants carry no dim names: a rejected assignment leaves a coherent tree *)
 Theorem C01_batch_size_setter : forall t sz new p d,
-  coh p d t = true -> hollow_free t = true ->
-  (tshape (fst (set_bs sz t new)) = new -> prefixb p new = true) ->
-  coh p d (fst (set_bs sz t new)) = true.
+  coh p d t = true -> no_names_below t = true -> prefixb p new = true -> coh p d (fst (set_bs sz t new)) = true.
 Proof. exact Proofs.C01_BatchP.set_bs_coh. Qed.
 Print Assumptions C01_batch_size_setter.
 
+(* rename_key_ with any new key (string or nested) keeps the tree coherent *)
+Theorem C01_rename_key : forall old new safe self p d,
+  coh p d self = true -> coh p d (fst (rename_key old new safe self)) = true.
+Proof. exact Proofs.C01_StepP.rename_key_coh. Qed.
+Print Assumptions C01_rename_key.
+
 (* _validate_value: whatever it returns (a value to store, or an error) the container stays coherent — also when it
    adopted the value's dim names and pushed them to the other children — and a returned value is a coherent entry of
-   the container: leading dims = batch size, on the container's device, one name per dim.  The value is any tensor, or a
-   tensordict that is coherent by itself; hollow-freeness is needed only when its batch size has to be coerced. *)
+   the container: leading dims = batch size, on the container's device, one name per dim.  The value is any tensor, or
+   any tensordict that is coherent by itself. *)
 Theorem C01_validate_value : forall sk sbs sdv snm ses v p d self' r,
   coh p d (Node sk sbs sdv snm ses) = true ->
   coh [] None v = true ->
-  (sbs = [] \/ prefixb sbs (tshape v) = true \/ hollow_free v = true) ->
   validate_tree (Node sk sbs sdv snm ses) v = (self', r) ->
   coh p d self' = true /\ thdr self' = Some (sk, sbs, sdv) /\ (forall t, r = Ok t -> coh sbs sdv t = true).
 Proof. exact validate_tree_coh. Qed.
@@ -93,7 +101,7 @@ Print Assumptions C01_validate_value.
 
 (* auto_batch_size_(k) in its growing regime (no limit, or a limit not below the rank of any node of the subtree) *)
 Theorem C01_auto_batch_size : forall t k p d,
-  coh p d t = true -> hollow_free t = true -> auto_scope k p t -> coh p d (fst (auto_bs t k)) = true.
+  coh p d t = true -> no_names_below t = true -> auto_scope k p t -> coh p d (fst (auto_bs t k)) = true.
 Proof. exact auto_bs_coh. Qed.
 Print Assumptions C01_auto_batch_size.
 
@@ -112,12 +120,14 @@ Definition ex_ops : list op :=
     OAt [] (OSet ["t"] (VTree (Node KTd [] None None [("l", Leaf [7] CPU)])) false);
     OAt ["n"] (OBatchSize false [0]);
     OAt [] (ORename ["a"] ["b"] false);
+    OAt [] (ORename ["b"] ["n"; "q"; "b"] false);                         (* nested new key: refused by the destination *)
+    OAt [] (OSet ["h"] (VTree (Node KTd [5] None None [("e", Node KTd [5] None None [])])) false);  (* hollow value *)
     OAt ["n"] (ONames (Some [Some "r"])) ].
 Example C01_ex_premises : Coherent ex_tree /\ trace_ok ex_tree ex_ops.
 Proof. vm_compute. repeat split. Qed.
 Example C01_ex_outcomes :
-  map (fun n => snd (step (run ex_tree (firstn n ex_ops)) (nth n ex_ops (OAt [] OClear)))) [0; 1; 2; 3; 4; 5]
-  = [Raised; Done; Done; Done; Done; Done].
+  map (fun n => snd (step (run ex_tree (firstn n ex_ops)) (nth n ex_ops (OAt [] OClear)))) [0; 1; 2; 3; 4; 5; 6; 7]
+  = [Raised; Done; Done; Done; Done; Raised; Done; Done].
 Proof. vm_compute. reflexivity. Qed.
 Example C01_ex_final : coherentb (run ex_tree ex_ops) = true /\ is_empty (run ex_tree ex_ops) = false.
 Proof. vm_compute. split; reflexivity. Qed.
